@@ -173,6 +173,23 @@ def gen(rng, tier, index):
         reqs.append({'path': p,
                      'pause': rng.choice([0, 0, 0.001, 0.05, 0.25, 0.9,
                                           2.0])})
+    bg_paths = [derive_path(e) for e in manifest
+                if e.get('run_background') and derive_path(e) not in STATIC
+                and e['file_name']]
+    if bg_paths and rng.random() < 0.5:
+        # stop a background script and start it again at once, while the
+        # stopped run is still winding down; then stop again
+        p = '/' + rng.choice(bg_paths)
+        burst = [{'path': p, 'pause': 0},
+                 {'path': '/stop' + p, 'pause': rng.choice([0.05, 0.3, 1.1])},
+                 {'path': p, 'pause': 0},
+                 {'path': '/', 'pause': rng.choice([0, 0.6])},
+                 {'path': p, 'pause': rng.choice([0, 0.5, 1.5])},
+                 {'path': rng.choice(['/stop' + p, '/stop-all']),
+                  'pause': rng.choice([0, 0.4])},
+                 {'path': '/', 'pause': 1.0}]
+        k = rng.randint(0, len(reqs))
+        reqs[k:k] = burst
     return {'policy': policy.draw_policy(rng, est_len=600, stalls=False),
             'population': pop, 'tick': rng.choice([0.05, 0.1, 0.5]),
             'manifest': manifest, 'scripts': scripts, 'requests': reqs}
@@ -271,6 +288,7 @@ def execute(scenario, chooser):
                 self._rec('add', name, job)
                 agent = super().add_job(job, name)
                 inst[id(agent)] = len(jlog) - 1
+                jlog[-1]['job_id'] = id(job)
                 agents_alive_all.append(agent)
                 return agent
 
@@ -282,6 +300,7 @@ def execute(scenario, chooser):
                 self._rec('spawn', name, job)
                 agent = super().spawn_job(job, name)
                 inst[id(agent)] = len(jlog) - 1
+                jlog[-1]['job_id'] = id(job)
                 agents_alive_all.append(agent)
                 return agent
 
@@ -347,6 +366,7 @@ def execute(scenario, chooser):
             o['rendered'] = [(t, _ctx_summary(c))
                              for t, c in flask_stub.rendered[o['r0']:]]
             o['queued_after'] = [a.name for a in jobs.get_queued()]
+            o['ev1'] = sim.next_event()
             o['inst_after'] = running_instances()
             o['running_after'] = [a.name for a in
                                   ([jobs.get_current()]
@@ -362,7 +382,17 @@ def execute(scenario, chooser):
             sim.sleep(max(sc['tick'], 0.1))
         st['drained'] = not jobs.has_jobs()
 
-    with world.StdoutCapture():
+    from bardolph.controller.script_job import ScriptJob as _SJ
+
+    def w_request_stop(orig):
+        def request_stop(self):
+            st.setdefault('stops_seen', []).append(
+                (core.current().next_event(), id(self)))
+            orig(self)
+        return request_stop
+
+    with world.StdoutCapture(), world.Instrument(
+            _SJ, {'request_stop': w_request_stop}):
         sim, out = world.run_sim(main, chooser, gran=sc['policy']['gran'],
                                  step_cap=250000, fairness=60)
     res = {'violations': viol, 'digest': sim.digest(),
@@ -624,6 +654,27 @@ def judge(sc, obs, st, violation, probes, res):
             if new_jobs or stops:
                 violation('page-acted', '{}: {} {}'.format(where, new_jobs,
                                                            stops))
+    # ---- stop requests reach the job objects they are meant for -------------
+    for i, o in enumerate(obs):
+        route = _route_of(o['path'])
+        if route not in ('/stop-all', '/stop/<p>') or o['status'] == 404:
+            continue
+        got = {jid for ev, jid in st.get('stops_seen', [])
+               if o['ev0'] < ev < o['ev1']}
+        # instances running before and after the request and not stopped
+        for k in o['inst_before']:
+            if k is None or k not in o['inst_after']:
+                continue
+            j = st['jlog'][k]
+            if route == '/stop/<p>' and j['name'] != o['path'][len('/stop/'):]:
+                continue
+            if j.get('job_id') not in got:
+                violation('stop-missed-running-job',
+                          'request #{} GET {!r}: the job started for {!r} '
+                          '(hand-over #{}) was running before and after the '
+                          'request but was never asked to stop'.format(
+                              i + 1, o['path'], j['name'], k))
+                break
     # ---- stop-all: what was queued never starts afterwards ------------------
     for i, o in enumerate(obs):
         if _route_of(o['path']) != '/stop-all' or not o['queued_before']:
